@@ -60,7 +60,8 @@ PT_LOAD of the same index holds the section's bytes at the same virtual address 
 SHF_TLS section: `c05:image-bytes:tls-in-load` = F17).
 Images: linker-like images from the independent encoder (tools/elfspec.linked_model), the same with a `.tdata` inside
 a PT_LOAD with / without a PT_TLS over it (`tls=`), and the bundled examples (executables, shared objects,
-relocatables, kernel module; ARM/PPC/x86; x86_64_static - the only one with a .tdata, 798 KB - in the thorough tier).
+relocatables, kernel module; ARM/PPC/x86; quick tier: those up to 40000 bytes plus x86_64_static, the only one with
+a .tdata - F17's real-world witness).
 """
 from families.writercommon import *
 from families.loadcommon import observe_lines, counts
@@ -135,8 +136,14 @@ def gen_cases(rng, tier):
         if elfspec.wellformed(b):
             for e in (["none", "addsec"] if tier == "quick" else ["none", "addsec", "append"]):
                 yield mk(f"ex-{f}-{e}", b, rng, e, {"src": "example", "example": f})
+    if tier == "quick":
+        # the real-world witness of F17 (the model takes ~7 s on its 798 KB; once, unedited; thorough: loop above;
+        # not last: the evidence samples the last cases)
+        for f, b in examples():
+            if f == "x86_64_static" and elfspec.wellformed(b):
+                yield mk(f"ex-{f}-none", b, rng, "none", {"src": "example", "example": f})
     # thread-local data inside a PT_LOAD (with and without a PT_TLS over it): the trigger of finding F17.
-    # The only bundled example with a `.tdata` is x86_64_static (798 KB: thorough tier, loop above).
+    # The only bundled example with a `.tdata` is x86_64_static (798 KB: both tiers, above).
     for i in range(8 if tier == "quick" else 80):
         cls, enc = CFGS[i % 4]
         for _ in range(20):
